@@ -415,3 +415,35 @@ def map_wildcard_lookup_flattens_values(x: int, y: int, z: int) -> bool:
     post: _
     """
     return ev(T['wild_map'], x=x, y=y, z=z) == [3, x + y + z, 0, 3, 6]
+
+
+# A map HOLDING keys of mutually incomparable types (xs:time / xs:date / integer / string): the map object is built with tracing
+# switched off (real dict, hash first -- the dict model's linear `==` scan is what raises the spurious TypeError), the functions
+# that SCAN its keys are then executed symbolically: entry order and the sought key are chosen by the solver.
+from crosshair.tracers import NoTracing as _NoTracing  # noqa: E402
+from harness.common import P31 as _P31  # noqa: E402
+T.update(parse_all({'scan_keys': '(map:contains($m, $q), every $k in map:keys($m) satisfies map:contains($m, $k), map:size($m), '
+                                 'count(map:keys($m)), map:contains($m, $absent))'}))
+_PERMS3 = ((0, 1, 2), (0, 2, 1), (1, 0, 2), (1, 2, 0), (2, 0, 1), (2, 1, 0))
+
+
+@ob(budget=120, tbudget=400, bound='maps of 3 entries whose keys are an xs:time, an xs:date and an integer or a string (== between the first two raises '
+                      'TypeError), the 6 entry orders x 3 sought keys x 2 third-key kinds chosen by the solver: map:contains finds every '
+                      'key map:keys reports, wherever an incomparable key is stored before it, and answers false for an absent key of a '
+                      'fourth type (xs:dayTimeDuration); the map object is built concretely (real dict), the scan is symbolic',
+    funcs=[F31 + ':map:contains', F31 + ':map:keys', 'elementpath/xpath_tokens/maps.py:XPathMap.keys'])
+def map_contains_scans_past_incomparable_keys(p: int, j: int, third: int) -> bool:
+    """
+    pre: 0 <= p <= 5 and 0 <= j <= 2 and 0 <= third <= 1
+    post: _
+    """
+    p = [k for k in range(6) if k == p][0]
+    j = [k for k in range(3) if k == j][0]
+    third = 1 if third == 1 else 0
+    with _NoTracing():
+        keys = (_Time(10, 0, 0), _Date(2020, 1, 1), 7 if third == 0 else 'k')
+        order = _PERMS3[p]
+        m = XPathMap(_P31, [(keys[i], i) for i in order])
+        q = keys[j]
+        absent = _DTD(seconds=60)
+    return ev(T['scan_keys'], m=m, q=q, absent=absent) == [True, True, 3, 3, False]
